@@ -1,0 +1,48 @@
+//! Read-only probes for the verification harness (feature `verif-hooks`).
+//! Nothing here changes the state of the runtime.
+
+use super::*;
+
+/// Snapshot of internal bookkeeping that is not observable through events.
+#[derive(Debug, Clone, PartialEq)]
+pub struct VerifProbe {
+    /// Depth of the value stack (expression temporaries, FOR/GOSUB frames).
+    pub stack_len: usize,
+    /// Number of variables and array elements holding a non-default value.
+    pub vars_len: usize,
+    /// Cursor column as tracked for PRINT/TAB/POS.
+    pub print_col: usize,
+    /// Program counter is inside the stored program (not in direct code).
+    pub in_program: bool,
+    /// Program counter.
+    pub pc: usize,
+    /// Name of the current machine state.
+    pub state: &'static str,
+    /// The listing has been edited since the last compile.
+    pub dirty: bool,
+}
+
+impl Runtime {
+    pub fn verif_probe(&self) -> VerifProbe {
+        VerifProbe {
+            stack_len: self.stack.len(),
+            vars_len: self.vars.verif_len(),
+            print_col: self.print_col,
+            in_program: self.pc < self.entry_address,
+            pc: self.pc,
+            state: match self.state {
+                State::Intro => "Intro",
+                State::Stopped => "Stopped",
+                State::Listing(_) => "Listing",
+                State::RuntimeError(_) => "RuntimeError",
+                State::Running => "Running",
+                State::Input => "Input",
+                State::InputRedo => "InputRedo",
+                State::InputRunning => "InputRunning",
+                State::Interrupt => "Interrupt",
+                State::Inkey => "Inkey",
+            },
+            dirty: self.dirty,
+        }
+    }
+}
